@@ -439,7 +439,7 @@ func attrs() []*attr {
 			}
 		}
 		return out
-	}})
+	}, bases: []string{"min", "rich", "envpass"}})
 	as = append(as, listAttr("labels", "labels", false, true, strA, strA2, 3, 4))
 	as = append(as, listAttr("secrets", "secrets", true, true, secA, secA2, 3, 4))
 	// named secrets have no serialisation in ruleHash at all, so there is no model to be ambiguous in
@@ -491,6 +491,9 @@ var bases = map[string][][2]string{
 	},
 	// a base whose labels already contain every string of the value alphabet: requires/labels interplay (AddRequire also adds a label)
 	"labelled": {{"cmd", `"c2"`}, {"labels", `["a", "b", "ab", "ba", "a=b", "=", "b=c", "c"]`}},
+	// a base whose env dict names the variables pass_env lets through (env values are expanded against the passed
+	// environment, core.withUserProvidedEnv, so the passed value still reaches the command)
+	"envpass": {{"cmd", `"c3"`}, {"env", `{"VA": "$VA:x", "VB": "$VB", "VAB": "lit"}`}},
 	"text": {{"cmd", `"text_file"`}, {"_file_content", `"fc"`}, {"outs", `["o1"]`}, {"labels", `["l1"]`}},
 }
 
